@@ -11,7 +11,7 @@ func VP_C15_crash() {
 	K, S := 1+vp.Choice(2), 5
 	vpCoordLimit = 2
 	if vp.Tier() == 1 {
-		K, S = 1+vp.Choice(3), 6 // (7 sectors did not finish inside the thorough budget)
+		K, S = 1+vp.Choice(2), 7 // (three live chunks did not finish inside the thorough budget)
 		vpCoordLimit = 3
 	}
 	chunks := vpArbitraryState(K, S)
